@@ -112,6 +112,12 @@ def gen(ctx):
                      label="no kernel copy, %d workers, 65 blocks" % w)
             c.seed = sd * 1000 + w
             cases.append(c)
+    # the source's file system offers NO extent map (FIEMAP answers EOPNOTSUPP, as on tmpfs): a sparse file is still copied
+    for driver in ("parfile", "parblock"):
+        for (size, lay) in [(40 * B + 5, [(i * B, (i + 1) * B) for i in range(0, 40, 2)]), (3 * (1 << 20), [(0, B), ((1 << 20), (1 << 20) + 3 * B), (3 * (1 << 20) - B, 3 * (1 << 20))])]:
+            for bs in ((3 * B, "noprogress") if quick else (B, 3 * B, 1 << 20, "noprogress")):
+                cases.append(Case(size, data=lay, driver=driver, workers=rng.choice([1, 2, 4]), bs=bs, reflink="never",
+                                  plan=[("fail", 95, 0, "ioctl", 0, "{src}")], label="sparse source, no extent map"))
     # ... and when OPENING or creating the file failed: nothing at the destination is a file that `differs`
     for driver in ("parfile", "parblock"):
         for (errno, which) in [(2, "{dst}"), (2, "{src}"), (13, "{dst}"), (24, "{src}"), (20, "{dst}")]:
